@@ -266,6 +266,16 @@ var c07Catalogue = []c07Mutation{
 	{"ops-null", func(r *rng, cs []*rawCommit, _ []identity.Interface) {
 		mutateBlob(cs[0], func(m map[string]any) any { m["ops"] = nil; return m })
 	}, true},
+	{"label-added-twice-then-removed", func(r *rng, cs []*rawCommit, _ []identity.Interface) {
+		// a label change that repeats a label, then its removal: nothing the editing API writes
+		mutateBlob(cs[len(cs)-1], func(m map[string]any) any {
+			ops, _ := m["ops"].([]any)
+			m["ops"] = append(ops,
+				map[string]any{"type": 5, "timestamp": 1600000100, "nonce": "QUJDREVGR0hJSktMTU5PUFFSU1RVVg==", "added": []any{"urgent", "urgent"}, "removed": []any{}},
+				map[string]any{"type": 5, "timestamp": 1600000101, "nonce": "QUJDREVGR0hJSktMTU5PUFFSU1RVVw==", "added": []any{}, "removed": []any{"urgent"}})
+			return m
+		})
+	}, false},
 	{"second-create-op", func(r *rng, cs []*rawCommit, _ []identity.Interface) {
 		var create any
 		mutateBlob(cs[0], func(m map[string]any) any { create = firstOp(m); return m })
@@ -322,6 +332,8 @@ func c07ReadLocal(repo repository.ClockedRepo, id entity.Id) c07Result {
 			res = c07Result{"err", err.Error(), map[string]any{"err": readErrClass(err)}}
 		} else {
 			res = c07Result{"ok", "", map[string]any{"ops": opIdsOf(b.Operations()), "create": uint64(b.CreateLamportTime()), "edit": uint64(b.EditLamportTime())}}
+			// what every user of the bug does next (the cache compiles a bug as soon as it holds it)
+			b.Compile()
 		}
 	})
 	if p != "" {
@@ -377,6 +389,60 @@ func runC07(c *runCtx) {
 	}
 	c07Identities(c)
 	c09Foreign(c, "C07")
+	c07Unsigned(c)
+}
+
+// c07Unsigned: a remote serves commits that name an author who has a signing key, without a
+// signature: reported invalid, nothing local changes — whether the author's identity is older than
+// the repository's bug clocks (its version carries no bug time) or not.
+func c07Unsigned(c *runCtx) {
+	key := identity.GenerateKey()
+	for rep := 0; rep < c.pick(2, 10); rep++ {
+		for _, olderThanClock := range []bool{true, false} {
+			r := c.rng.fork()
+			repo := newMock()
+			if !olderThanClock {
+				repo.Witness("bugs-edit", 1)
+				repo.Witness("bugs-create", 1)
+			}
+			iden, err := identity.NewIdentityFull(repo, "keyed author", "k@example.com", "", "", []*identity.Key{key})
+			if err != nil {
+				panic(err)
+			}
+			if err := iden.Commit(repo); err != nil {
+				panic(err)
+			}
+			g := newOpGen(r.fork(), []identity.Interface{iden})
+			cop := g.create()
+			id := cop.Id()
+			// a plain commit: no signature
+			head := writeCrafted(repo, craftPack{author: string(iden.Id()), ops: opsOf1(cop), edit: 1, create: 1, version: bugFormatVersion})
+			remoteRef := "refs/remotes/origin/bugs/" + string(id)
+			repo.UpdateRef(remoteRef, head)
+			c.context(fmt.Sprintf("unsigned commits of a keyed author (identity older than the clocks: %v): MergeAll", olderThanClock))
+			before := snapshotRefs(repo)
+			var status entity.MergeStatus
+			reason := ""
+			crashed := recoverTo(func() {
+				for res := range bug.MergeAll(repo, resolversFor(repo), "origin", iden) {
+					status = res.Status
+					reason = res.Reason
+				}
+			})
+			c.count(fmt.Sprintf("unsigned-keyed-author[older=%v]=%s (%s)", olderThanClock, mergeStatusName(status), trunc(reason, 70)))
+			c.nontrivial(fmt.Sprintf("unsigned|%v|%s", olderThanClock, id))
+			if crashed != "" {
+				c.violation(-1, "C07/panic-merge", "merging unsigned commits of a keyed author crashes: "+crashed, nil)
+				continue
+			}
+			if status != entity.MergeStatusInvalid {
+				c.violation(-1, "C07/unsigned-accepted", fmt.Sprintf("unsigned commits naming an author who has a signing key (identity older than the bug clocks: %v) were reported %s", olderThanClock, mergeStatusName(status)), nil)
+			}
+			if mustJSON(before) != mustJSON(snapshotRefs(repo)) {
+				c.violation(-1, "C07/invalid-not-inert", "refs changed after unsigned commits of a keyed author were offered", nil)
+			}
+		}
+	}
 }
 
 // c07Merge: local situation x hostile remote version -> MergeAll; local refs and reads unchanged.
